@@ -770,8 +770,8 @@ func genRandom(r *rng.R, n int) *caseIn {
 	case 2:
 		c.JointSupported, c.JointEnabled = false, r.Bool()
 	}
-	via := r.Pick(34, 22, 40, 4)
-	jointOrigin := via == 3 || (via == 2 && r.Pct(6))
+	via := r.Pick(33, 22, 39, 4, 2)
+	jointOrigin := via == 3 || via == 4 || (via == 2 && r.Pct(6))
 	c.Origin, c.Leader = genOrigin(r, n, jointOrigin)
 	// a region cannot have a peer on a store PD does not know: "absent" is only for stores without origin peer
 	for _, p := range c.Origin {
@@ -921,6 +921,29 @@ func genRandom(r *rng.R, n int) *caseIn {
 		}
 	case 3:
 		c.Via = "LeaveJoint"
+	case 4:
+		// the grant-leader / evict-leader entry points on a region that sits between ChangePeerV2Enter and Leave: the
+		// (forced) leader target is any peer of the joint state, demoting and incoming voters included
+		c.Via = "ForceTransferLeader"
+		if r.Pct(25) {
+			c.Via = "TransferLeader"
+		}
+		var others, demoting []uint64
+		for _, p := range c.Origin {
+			if p.Store != c.Leader {
+				others = append(others, p.Store)
+				if p.Role == "demoting" {
+					demoting = append(demoting, p.Store)
+				}
+			}
+		}
+		st := anyPeer()
+		if len(demoting) > 0 && r.Pct(50) {
+			st = demoting[r.Intn(len(demoting))]
+		} else if len(others) > 0 {
+			st = others[r.Intn(len(others))]
+		}
+		c.Ops = []opSpec{{K: "leader", Store: st}}
 	}
 	return c
 }
